@@ -211,6 +211,18 @@ theorem departure_never_wedges_execute {cfg : Cfg} (hfix : cfg.fixed = true) (hc
   obtain ⟨s', h1, h2, h3, _⟩ := execute_completes hfix hcap hr hpc hd
   exact ⟨s', h1, h3, h2⟩
 
+/-- **departure_never_wedges (execute)**, the form closest to the statement: ALL readers may be
+stalled (`stalled := fun _ => True`); every subscriber either has ended its context — whatever its
+buffer holds, full included — or still has room for one value (`PassableFrom`).  Then the callback
+returns by internal steps alone. -/
+theorem departure_never_wedges_execute_all_stalled {cfg : Cfg} (hfix : cfg.fixed = true) (hcap : 0 < cfg.cap)
+    {s : State} (hr : Reach (Batcher.lts cfg) s) {r : It} (hpc : s.p.pc = .running r)
+    (hd : ∀ j u, s.subs[j]? = some u → u.ctxDone = true ∨ u.buf.length < cfg.cap) :
+    ∃ s', Steps (Batcher.lts cfg) (Allowed (fun _ => True)) s s' ∧ s'.epc = .idle ∧ s'.p = { s.p with pc := .top } := by
+  obtain ⟨s', h1, h2, h3, _⟩ := execute_completes_room (stalled := fun _ => True) hfix hcap hr hpc
+    (fun j u _ hu _ => hd j u hu)
+  exact ⟨s', h1, h3, h2⟩
+
 /-- `Batch` itself never blocks: in every state the call is enabled (for one of the two values of
 the model's tie-breaking flag). -/
 theorem batch_enabled {cfg : Cfg} (s : State) (k v : Nat) :
